@@ -57,6 +57,8 @@ type c05Case struct {
 	// envelope has been sent. The connection is open, so it stays served:
 	// nothing about the transfer changes.
 	ShuttingDown bool `json:"shutting_down,omitempty"`
+	// TLS: the connection is under (implicit) TLS; every segment is a record
+	TLS bool `json:"tls,omitempty"`
 }
 
 const c05Bait = "MAIL FROM:<bait@x>\r\nRCPT TO:<bait@x>\r\nQUIT\r\nDATA\r\nBDAT 3 LAST\r\n"
@@ -193,6 +195,8 @@ func c05Run(c c05Case) Verdict {
 	stall := c.StallAt > 0 && c.StallAt < len(p.body.buf) && c.State == "valid"
 	if stall {
 		cfg.ReadTimeoutMs = 30
+	} else if c.TLS {
+		cfg.TLS = "implicit"
 	}
 	if c.State == "overlimit" || ((c.State == "valid" || c.State == "badlast") && c.Limit > 0) {
 		cfg.MaxMessageBytes = c.Limit
@@ -226,7 +230,11 @@ func c05Run(c c05Case) Verdict {
 		}
 	}
 	r := harness.NewRig(cfg, script)
-	w, _ := r.Dial()
+	w, derr := r.Dial()
+	if derr != nil {
+		w.Finish()
+		return Verdict{Inconclusive: "dial: " + derr.Error()}
+	}
 	if st := w.WaitQuiet(); st != harness.QIdle {
 		w.Finish()
 		return Verdict{Inconclusive: "server not idle after connect: " + st}
@@ -321,6 +329,9 @@ func c05Run(c c05Case) Verdict {
 	v.Classes = append(v.Classes, "state_"+c.State)
 	if c.ShuttingDown {
 		v.Classes = append(v.Classes, "during_graceful_shutdown")
+	}
+	if c.TLS && !stall {
+		v.Classes = append(v.Classes, "under_tls")
 	}
 	if len(c.Chunks) >= 2 {
 		v.Classes = append(v.Classes, "multi_chunk")
@@ -575,6 +586,7 @@ func c05Gen(t *rapid.T) c05Case {
 	c.Reads = genReadSizes(t, "reads")
 	c.GateStart = rapid.IntRange(0, 2).Draw(t, "gate_start") == 0
 	c.ShuttingDown = rapid.IntRange(0, 5).Draw(t, "shutting_down") == 0
+	c.TLS = rapid.IntRange(0, 7).Draw(t, "tls") == 0
 	if c.State == "valid" && rapid.IntRange(0, 999).Draw(t, "stall")%25 == 7 {
 		// payloads full of bait, stalled somewhere inside
 		for i := range c.Chunks {
